@@ -140,6 +140,8 @@ fn build_file<'a>(
     builder.set_strict(strict);
     if validate {
         builder.enable_validate_mode();
+        // Every file is judged on its own assertions: start it with a fresh collector.
+        env.borrow_mut().assert_results = build::AssertCollector::new();
     }
     builder.build(file_path_buf)?;
     if validate {
